@@ -123,5 +123,35 @@ def steps {α : Type} (a : α) : Nat → Prog α
   | 0 => .ret a
   | n + 1 => step (steps a n)
 
+/-- sequencing: a call that uses the result of another call (`jose_b64_enc_dump` = `json_dumps`, then
+    `jose_b64_enc` on its text) -/
+def bind {α β : Type} : Prog α → (α → Prog β) → Prog β
+  | .ret a, f => f a
+  | .fail, _ => .fail
+  | .crash, _ => .crash
+  | .alloc k, f => .alloc fun b => bind (k b) f
+
+/-- `jose_b64_enc(i, il)`: elen = b64_elen(il); if (elen == SIZE_MAX) return NULL;
+      enc = calloc(1, elen); if (!enc) return NULL;
+      if (jose_b64_enc_buf(i, il, enc, elen) == elen) out = json_stringn(enc, elen);   -- allocates
+      free(enc); return out; -/
+def b64EncProg (sizeOk : Bool) : Prog Unit :=
+  if !sizeOk then .fail
+  else .alloc fun enc => if !enc then .fail else .alloc fun str => if str then .ret () else .fail
+
+/-- `jose_b64_dec_load(i)`: size query, calloc, decode, `json_loadb` (`parse` allocations, each tested
+    by the JSON layer; `parseOk`: the text is JSON) -/
+def b64DecLoadProg (sizeOk decOk parseOk : Bool) (parse : Nat) : Prog Unit :=
+  if !sizeOk then .fail
+  else .alloc fun buf =>
+    if !buf then .fail
+    else if !decOk then .fail
+    else bind (steps () parse) fun _ => if parseOk then .ret () else .fail
+
+/-- `jose_b64_enc_dump(i)`: buf = json_dumps(i, ..) (`dump` allocations); if (!buf) return NULL;
+    out = jose_b64_enc(buf, strlen(buf)); -/
+def b64EncDumpProg (dump : Nat) (sizeOk : Bool) : Prog Unit :=
+  bind (steps () dump) fun _ => b64EncProg sizeOk
+
 end Alloc
 end Jose
